@@ -262,7 +262,13 @@ where
         }
         // E2: the entry of the backend's handler is a scheduling point of its own (a preemption
         // between the library's enabled-check and the call); no-op without a controller
-        crate::sysshim::sched_point(crate::sysshim::Point::User("handle_event"), &|| true);
+        let site: &'static str = match device_event {
+            0 => "handle_event",
+            1 => "handle_event#1",
+            2 => "handle_event#2",
+            _ => "handle_event#n",
+        };
+        crate::sysshim::sched_point(crate::sysshim::Point::User(site), &|| true);
         let ring_size = vrings.get(device_event as usize).map(|v| v.get_ref().get_queue().size());
         let action = {
             let (m, _) = &*self.sh;
